@@ -232,7 +232,16 @@ func replicateX(n int, caps []int, dupFirst bool) Scenario {
 
 // stream.Merge over scripted inputs. closeAfter < 0: read to the end (plus two more calls).
 func streamMerge(scripts [][]sx.Step, closeAfter int, yield bool) Scenario {
+	return streamMergeX(scripts, closeAfter, yield, false)
+}
+
+// perCallCtx: every Next call gets a context of its own that is cancelled as soon as the call has
+// returned (the usual `ctx, cancel := context.WithTimeout(...); defer cancel()` around one call).
+func streamMergeX(scripts [][]sx.Step, closeAfter int, yield, perCallCtx bool) Scenario {
 	name := fmt.Sprintf("streamMerge/inputs=%s/closeAfter=%d/yield=%v", scriptNames(scripts), closeAfter, yield)
+	if perCallCtx {
+		name += "/per-call-contexts"
+	}
 	return Scenario{name, func() {
 		var srcs []*sx.Src
 		var ins []stream.Stream[int]
@@ -261,7 +270,12 @@ func streamMerge(scripts [][]sx.Step, closeAfter int, yield bool) Scenario {
 		var got []int
 		var end error
 		for closeAfter < 0 || len(got) < closeAfter {
-			v, err := m.Next(ctx)
+			cctx, cancel := ctx, func() {}
+			if perCallCtx {
+				cctx, cancel = context.WithCancel(ctx)
+			}
+			v, err := m.Next(cctx)
+			cancel()
 			if err != nil {
 				end = err
 				break
@@ -342,6 +356,44 @@ func streamMerge(scripts [][]sx.Step, closeAfter int, yield bool) Scenario {
 	}}
 }
 
+// streamMergeMany: idle inputs that stay open and silent, plus busy ones with one value each: every
+// value is yielded although the idle inputs never produce anything (then the consumer closes).
+func streamMergeMany(idle, busy int) Scenario {
+	return Scenario{fmt.Sprintf("streamMerge/many-inputs/idle=%d/busy=%d", idle, busy), func() {
+		var srcs []*sx.Src
+		var ins []stream.Stream[int]
+		for i := 0; i < idle; i++ {
+			s := &sx.Src{Name: fmt.Sprintf("idle%d", i), Steps: []sx.Step{{Block: true}}}
+			srcs = append(srcs, s)
+			ins = append(ins, s)
+		}
+		want := map[int]bool{}
+		for i := 0; i < busy; i++ {
+			s := &sx.Src{Name: fmt.Sprintf("busy%d", i), Steps: []sx.Step{{Val: 100 + i}, {Block: true}}}
+			srcs = append(srcs, s)
+			ins = append(ins, s)
+			want[100+i] = true
+		}
+		m := stream.Merge(ins...)
+		for i := 0; i < busy; i++ {
+			v, err := m.Next(context.Background()) // (a value that is never yielded shows as a deadlock)
+			if err != nil || !want[v] {
+				hx.Fail("lost-value", "stream.Merge over %d idle and %d busy inputs returned (%d,%v)", idle, busy, v, err)
+			}
+			delete(want, v)
+		}
+		m.Close()
+		hx.Atomically(func() {
+			for _, s := range srcs {
+				if s.Closes == 0 {
+					hx.Fail("source/not-closed-when-Close-returned", "Close of the merged stream has returned but %s has not been closed yet", s.Name)
+				}
+			}
+		})
+		hx.Outcome("ok")
+	}}
+}
+
 func scriptNames(scripts [][]sx.Step) string {
 	s := "["
 	for i, sc := range scripts {
@@ -352,6 +404,8 @@ func scriptNames(scripts [][]sx.Step) string {
 			switch {
 			case st.Err == context.Canceled:
 				s += "cE" // the source's own error happens to be context.Canceled
+			case st.Err == context.DeadlineExceeded:
+				s += "dE" // ... or context.DeadlineExceeded
 			case st.Err != nil:
 				s += "E"
 			case st.Block:
@@ -410,6 +464,7 @@ func All() []Scenario {
 		chansMergeScripted([]int{1, 1, 1, 1, 1, 1, 1, 1, 1}, []int{0, 1, 2, 3, 4, 5, 6, 7, 8}),
 		chansMergeScripted([]int{1, 0, 1, 0, 1, 0, 1, 0, 1, 1}, []int{9, 8, 7, 6, 5, 4, 3, 2, 1, 0}),
 		chansMergeSameInputTwice(),
+		chansMergeScripted(ones(17), upTo(17)), chansMergeScripted(ones(33), downFrom(33)),
 		replicateX(2, []int{1}, true), replicateX(1, []int{0, 1}, true),
 	)
 	out = append(out, chansMergeProducers([]int{1, 1}), chansMergeProducers([]int{2, 1}), chansMergeProducers([]int{1, 1, 1}))
@@ -429,10 +484,38 @@ func All() []Scenario {
 		// an input whose own error is context.Canceled
 		streamMerge([][]sx.Step{{{Err: context.Canceled}}}, -1, false),
 		streamMerge([][]sx.Step{append(vals(0, 1), sx.Step{Err: context.Canceled}), vals(10, 1)}, -1, false),
+		streamMerge([][]sx.Step{append(vals(0, 1), sx.Step{Err: context.DeadlineExceeded}), vals(10, 1)}, -1, false),
+		streamMergeX([][]sx.Step{vals(0, 2), vals(10, 1)}, -1, false, true),
+		streamMergeX([][]sx.Step{append(vals(0, 1), e)}, -1, false, true),
+		streamMergeMany(16, 1),
 		streamMerge([][]sx.Step{vals(0, 2), vals(10, 1)}, 0, false),
 		streamMerge([][]sx.Step{vals(0, 2), vals(10, 1)}, 1, true),
 		streamMerge([][]sx.Step{append(vals(0, 1), b), vals(10, 1)}, 2, false),
 		streamMerge([][]sx.Step{{b}, {b}}, 0, false),
 	)
+	return out
+}
+
+func ones(n int) []int {
+	out := make([]int, n)
+	for i := range out {
+		out[i] = 1
+	}
+	return out
+}
+
+func upTo(n int) []int {
+	out := make([]int, n)
+	for i := range out {
+		out[i] = i
+	}
+	return out
+}
+
+func downFrom(n int) []int {
+	out := make([]int, n)
+	for i := range out {
+		out[i] = n - 1 - i
+	}
 	return out
 }
